@@ -295,3 +295,44 @@ Definition init_at2 (en : enc) : list cmd :=
   define_signals en 0 (fun s => (pos (u_other (sg_uses s)) || sg_input s) && (u_init (sg_uses s) =? 0)).
 
 Definition script2 (en : enc) (n : nat) : list cmd := init_at2 en ++ unrolls Fixed en 0 0 n.
+
+(** ** third proposed repair (patches/0003): at step 0 the states are emitted in dependency order
+    of their init expressions: [init_order] of encoding.rs.  Every pass emits, in declaration
+    order, the states all of whose init dependencies have been emitted; the passes stop when one
+    emits nothing; what is left (states on a cyclic init dependency) follows in declaration order. *)
+Definition state_ready (en : enc) (emitted : list expr) (st : state) : bool :=
+  match st_init st with
+  | Some v => forallb (fun y => negb (is_state_sym (e_sys en) y) || mem y emitted) (symbols_in v)
+  | None => true
+  end.
+
+Fixpoint order_pass (en : enc) (emitted : list state) (sts : list state) : list state :=
+  match sts with
+  | [] => emitted
+  | st :: r =>
+      if mem (st_sym st) (map st_sym emitted) then order_pass en emitted r
+      else if state_ready en (map st_sym emitted) st then order_pass en (emitted ++ [st]) r
+      else order_pass en emitted r
+  end.
+
+Fixpoint order_passes (en : enc) (fuel : nat) (emitted : list state) : list state :=
+  match fuel with
+  | O => emitted
+  | S f =>
+      let e' := order_pass en emitted (s_states (e_sys en)) in
+      if Nat.eqb (length e') (length emitted) then emitted else order_passes en f e'
+  end.
+
+Definition init_order (en : enc) : list state :=
+  let e := order_passes en (length (s_states (e_sys en))) [] in
+  e ++ filter (fun st => negb (mem (st_sym st) (map st_sym e))) (s_states (e_sys en)).
+
+(** executable: the passes order every state (the case when the init dependencies are acyclic) *)
+Definition init_order_complete_b (en : enc) : bool :=
+  Nat.eqb (length (order_passes en (length (s_states (e_sys en))) [])) (length (s_states (e_sys en))).
+
+Definition init_at3 (en : enc) : list cmd :=
+  init_states2 en [] (init_order en) ++
+  define_signals en 0 (fun s => (pos (u_other (sg_uses s)) || sg_input s) && (u_init (sg_uses s) =? 0)).
+
+Definition script3 (en : enc) (n : nat) : list cmd := init_at3 en ++ unrolls Fixed en 0 0 n.
